@@ -20,7 +20,7 @@ for a in vlib.prints(r["out"], "DIFF"):
     if n > mx: continue
     run = runs[a[0]]
     print("run", a[0], "toks", [t for t in run["toks"]][:a[1]], "at", a[1])
-    fmt = lambda es: [f"{e['e']}:{e['k']}:s{e['s']}:id{e['id']}:q{e['q']}:r{e['r']}" for e in es]
+    fmt = lambda es: [f"{e['e']}:{e['k']}:s{e['s']}:id{e['id']}:q{e['q']}:r{e.get('r',0)}" for e in es]
     print("   model:", fmt(json.loads(a[2])))
     print("   real :", fmt(json.loads(a[3])))
 print(len(seen), "runs differ of", len(runs))
